@@ -159,3 +159,21 @@ impl ViewEdit for Pair {
     fn view(&self) -> &L { &self.l }
     fn edit(&mut self) -> &mut L { &mut self.r }
 }
+
+/// an UNWRAPPED associated type (it only marks the vtable / temporary storage, it must not shape them)
+#[cglue_trait]
+pub trait Sampler {
+    type Sample;
+    fn sample(&self) -> Self::Sample;
+    fn position(&self) -> usize;
+}
+impl Sampler for Sg {
+    type Sample = A16;
+    fn sample(&self) -> A16 { A16(self.0 as u64 ^ 0x5A5A) }
+    fn position(&self) -> usize { self.0 as usize }
+}
+impl Sampler for Dz {
+    type Sample = u32;
+    fn sample(&self) -> u32 { self.v as u32 }
+    fn position(&self) -> usize { self.adds as usize }
+}
